@@ -81,6 +81,10 @@ func (mr *MultiReaderCloser) writeToWithBuffer(w io.Writer, buf []byte) (sum int
 			mr.readers = mr.readers[i:] // permit resume / retry after error
 			return sum, err
 		}
+		// We're done reading from this stream: close it, like Read does
+		if rc, ok := r.(io.Closer); ok {
+			_ = rc.Close()
+		}
 		mr.readers[i] = nil // permit early GC
 	}
 	mr.readers = nil
